@@ -41,6 +41,56 @@ theorem gen_set_value :
     Gen.C04.setPackArgs = ["'<H'|varid", "'<B'|varid", "element.pytype|value_nr"] ∧
     Gen.C04.setV2Test = "self._useV2" ∧ Gen.C04.RO_ACCESS = 1 := by decide
 
+/-- the updater thread: `get`, then `acquire`, then transmit; the three lock-pattern and release-pattern slices; the status
+byte of a V2 read reply is cut out; `release()` is guarded by `try` only on the read/write path -/
+theorem gen_updater :
+    Gen.C04.runCalls = ["self.request_queue.get()", "self.wait_lock.acquire()",
+      "self.cf.send_packet(pk, expected_reply=tuple(self._lock_pattern))", "self.cf.send_packet(pk, expected_reply=tuple(pk.data[:1]))",
+      "self.wait_lock.release()"] ∧
+    Gen.C04.runTests = ["not self._should_close", "self.cf.link", "self._useV2", "pk.channel == MISC_CHANNEL"] ∧
+    (Gen.C04.patLenMisc = 3 ∧ Gen.C04.patLenV2 = 2 ∧ Gen.C04.patLenV1 = 1 ∧ Gen.C04.relLenMisc = 3 ∧ Gen.C04.relLenV2 = 2 ∧ Gen.C04.relLenV1 = 1) ∧
+    Gen.C04.cbStrip = ["pk.data[:2] + pk.data[3:]"] ∧
+    Gen.C04.cbCalls = ["self.updated_callback(pk)", "self.wait_lock.release()", "self.updated_callback(pk)", "self.wait_lock.release()"] ∧
+    Gen.C04.cbTryBodies = ["self.wait_lock.release()"] ∧
+    Gen.C04.cbCompares = ["pk.channel == READ_CHANNEL", "pk.channel == WRITE_CHANNEL", "pk.channel == READ_CHANNEL", "pk.channel != TOC_CHANNEL",
+      "self._lock_pattern == release_pattern", "pk is not None", "pk.channel == MISC_CHANNEL", "command == MISC_VALUE_UPDATED",
+      "self._lock_pattern == release_pattern"] ∧
+    Gen.C04.updaterInitPortCb = ["self.cf.add_port_callback(CRTPPort.PARAM, self._new_packet_cb)"] :=
+  ⟨rfl, rfl, gen_lens, rfl, rfl, rfl, rfl, rfl⟩
+
+/-- `_param_updated`: where the index and the value are read from, and what is cached -/
+theorem gen_param_updated :
+    Gen.C04.updatedIdIndex = ["1", "0"] ∧
+    Gen.C04.updatedVarId = ["struct.unpack('<H', pk.data[id_index:id_index + 2])[0]", "pk.data[0]"] ∧
+    Gen.C04.updatedUnpacks = ["'<H'|pk.data[id_index:id_index + 2]", "element.pytype|pk.data[id_index + 2:]", "element.pytype|pk.data[1:]"] ∧
+    Gen.C04.updatedValueStr = ["value.__str__()"] ∧ Gen.C04.updatedStore = ["value_s"] ∧
+    Gen.C04.updatedCalls = ["self.param_update_callbacks[complete_name].call(complete_name, value_s)",
+      "self.group_update_callbacks[element.group].call(complete_name, value_s)", "self.all_update_callback.call(complete_name, value_s)",
+      "self.all_updated.call()", "self._initialized.set()"] :=
+  ⟨rfl, rfl, rfl, rfl, rfl, rfl⟩
+
+/-- reads: index width from the protocol version at call time; misc requests: `<BH` command, index; registration tests -/
+theorem gen_requests :
+    Gen.C04.readPackArgs = ["'<H'|var_id", "'<B'|var_id"] ∧
+    Gen.C04.readUseV2 = ["self._useV2 = self.cf.platform.get_protocol_version() >= 4"] ∧
+    parseFmt! Gen.C04.miscReqFmt = [.B, .H] ∧
+    Gen.C04.getDefaultReqArgs = ["MISC_GET_DEFAULT_VALUE", "element.ident"] ∧ Gen.C04.getStateReqArgs = ["MISC_PERSISTENT_GET_STATE", "element.ident"] ∧
+    Gen.C04.storeReqArgs = ["MISC_PERSISTENT_STORE", "element.ident"] ∧ Gen.C04.clearReqArgs = ["MISC_PERSISTENT_CLEAR", "element.ident"] ∧
+    Gen.C04.getDefaultRegisterTest = "" ∧ Gen.C04.getStateRegisterTest = "" ∧
+    Gen.C04.storeRegisterTest = "callback is not None" ∧ Gen.C04.clearRegisterTest = "callback is not None" ∧
+    Gen.C04.getDefaultGuards = [] ∧ Gen.C04.getStateGuards = ["not element.is_persistent()"] ∧
+    Gen.C04.storeGuards = ["not element", "not element.is_persistent()"] ∧ Gen.C04.clearGuards = ["not element.is_persistent()"] :=
+  ⟨rfl, rfl, gen_misc_fmt, rfl, rfl, rfl, rfl, rfl, rfl, rfl, rfl, rfl, rfl, rfl, rfl⟩
+
+/-- the reply handlers: status / ENOENT tests and where the values are unpacked from -/
+theorem gen_handlers :
+    Gen.C04.getDefaultHandlerCompares.drop 3 = ["pk.data[3] == errno.ENOENT"] ∧
+    Gen.C04.getDefaultHandlerUnpacks.drop 1 = ["element.pytype|pk.data[3:]"] ∧
+    Gen.C04.getStateHandlerCompares.drop 3 = ["pk.data[3] == errno.ENOENT", "pk.data[3] == 1"] ∧
+    Gen.C04.getStateHandlerUnpacks.drop 1 = ["element.pytype|pk.data[4:]", "f'<{just_type * 2}'|pk.data[4:]"] ∧
+    Gen.C04.storeHandlerCompares.drop 3 = ["pk.data[3] == 0"] ∧ Gen.C04.clearHandlerCompares.drop 3 = ["pk.data[3] == 0"] :=
+  ⟨rfl, rfl, rfl, rfl, rfl, rfl⟩
+
 /-! ## Clause 1a: the bytes of a write -/
 
 /-- Setting an integer-typed parameter (any of the eight integer type codes) to an in-range value queues exactly one
@@ -77,6 +127,28 @@ theorem set_roundtrip (s : Sys) (e : Elem) (t : NumType) (dp : DevParam) (hr : W
       updatesOf outs = fanout s.host e.group e.name val ∧
       s'.Idle ∧ s'.down = [] :=
   write_roundtrip S2F Variant.code gen_misc_routing.1 gen_misc_routing.2.1 s e t dp hr x vb hvb thread
+
+/-- reads (`request_param_update`, also what fills the cache at connection): one packet `index` on the read channel; the
+device answers `index [status] value`; the status byte of the current protocol generation is removed before decoding; the cache
+and the update callbacks carry the device's value -/
+theorem read_roundtrip_sys (s : Sys) (e : Elem) (t : NumType) (dp : DevParam) (hr : ReadReady s e t dp) (thread : Nat) :
+    ∃ s' outs val,
+      Sys.run S2F Variant.code s [.api thread (.requestUpdate [e.group, e.name]), .updGet, .updSend, .deliver] = some (s', outs) ∧
+      txsOf outs = [{ chan := 1, data := leBytes (idWidth s.dev.v2) e.ident }] ∧
+      rxdsOf outs = [{ chan := 1, data := leBytes (idWidth s.dev.v2) e.ident ++ (if s.dev.v2 then [0] else []) ++ dp.value }] ∧
+      s'.dev = s.dev ∧ unpack1 e.fmt dp.value = .ok val ∧ getVal s'.host.values e.group e.name = some val ∧
+      updatesOf outs = fanout s.host e.group e.name val ∧ s'.Idle ∧ s'.down = [] :=
+  read_roundtrip S2F Variant.code gen_misc_routing.1 gen_misc_routing.2.1 s e t dp hr thread
+
+/-- a double too large for binary32 written to a `float` parameter raises `OverflowError`; nothing is queued -/
+theorem float_overflow_raises (h : Host) (cn : List Nat) (e : Elem) (b : Nat) (inCb : Bool)
+    (hinit : h.initialized = true) (hl : elemByName h.toc cn = some e) (hrw : e.ro = false) (ht : e.tcode = NumType.f32.code)
+    (hid : e.ident < 256 ^ idWidth h.useV2) (hov : f64ToF32 b = .error .overflow) :
+    setValue S2F h cn (.flt b) inCb = (h, [.raised .overflow]) := by
+  have hp : setValuePkt S2F h cn (.flt b) = .error .overflow := by
+    rw [setValuePkt_elem S2F h cn e _ hl hrw hid, Elem.fmt_eq, ht, valueBytes_f32]
+    simp only [pyFloat, hov]
+  simp only [setValue, gate, hinit, if_true, hp]
 
 /-- ... in particular for every integer type and every in-range integer `v`: the bytes are `v` in two's complement of the
 type's width and the cached / announced value is `v` -/
@@ -216,6 +288,8 @@ def cxSys : Sys := { host := { Host.init cxToc true with updV2 := true, initiali
 /-- one request goes out, is answered and the answer is delivered -/
 def pump : List Ev := [.updGet, .updSend, .deliver]
 
+/-- 1e39 does not fit binary32 -/
+example : f64ToF32 0x48078287F49C4A1D = .error .overflow := by decide +kernel
 example : cxSys.Idle := ⟨rfl, rfl, rfl, rfl, rfl, rfl, rfl, rfl⟩
 
 /-- what the callers' callbacks are told during a run -/
